@@ -131,9 +131,11 @@ func fragmentations(data []byte, label string, pairs, triples bool) {
 	ctx.Add("files", 1)
 	for _, eof := range []bool{false, true} {
 		one(data, want, nil, 0, eof, label)
-		one(data, want, nil, 1, eof, label)
-		one(data, want, nil, 2, eof, label)
-		one(data, want, nil, 3, eof, label)
+		for _, per := range []int{1, 2, 3, 7, 100, 101, 1000, 4095, 4096, 4097} {
+			if per < len(data) {
+				one(data, want, nil, per, eof, label)
+			}
+		}
 		for a := 1; a < len(data); a++ {
 			one(data, want, []int{a}, 0, eof, label)
 			if !pairs {
@@ -175,6 +177,19 @@ func family() (files [][]byte, names []string) {
 	shapes := smfgen.Shapes(false)
 	for i := 0; i < len(shapes); i += 3 {
 		add([]smfgen.Timed{{T: &toks[0], D: &dls[0]}, {T: &toks[4], D: &dls[1]}}, shapes[i], shapes[i].Name)
+	}
+	// long payloads (beyond the 4096-byte block size), in a plain and in a shaped file
+	lb, le := smfgen.LongSweep()
+	two := smfgen.Shape{Name: "fmt1/2trk/alien", Format: 1, NTracks: 2, Division: 480, SeqTrack: 0, Aliens: []smfgen.Alien{{Before: 1, Type: "XFIH", Body: make([]byte, 5000)}}}
+	for i := range lb {
+		f, _ := smfgen.File(base, lb[i], le[i])
+		files = append(files, f)
+		names = append(names, fmt.Sprintf("long%d", len(lb[i])))
+		if i%5 == 0 {
+			f, _ := smfgen.File(two, lb[i], le[i])
+			files = append(files, f)
+			names = append(names, fmt.Sprintf("long%d+alien5000", len(lb[i])))
+		}
 	}
 	return
 }
